@@ -534,11 +534,20 @@ class EndToEnd(EnumContract):
             q_row = [c["id"] for c in rd["cats"] if not c["missing"]].index(tgt)
             for name in ("counts", "unweighted_counts", "row_proportions", "column_proportions", "table_proportions",
                          "row_weighted_bases", "column_weighted_bases", "table_weighted_bases", "row_std_err", "column_std_err",
-                         "table_std_err", "population_counts"):
+                         "table_std_err", "population_counts", "zscores", "pvals"):
                 try:
                     a = np.asarray(getattr(pt, name), dtype=float)[pos, :][csel]
                     b = np.asarray(getattr(q, name), dtype=float)[q_row, :][c_src]
-                    if not close(a, b, 1e-7):
+                    if name in ("zscores", "pvals"):
+                        # the rank guard looks at the base table: merging can leave fewer than two
+                        # independent rows (NaN everywhere by C12) -- compare only when both are defined
+                        full_a = np.asarray(getattr(pt, name), dtype=float)
+                        full_b = np.asarray(getattr(q, name), dtype=float)
+                        if np.all(np.isnan(full_a)) or np.all(np.isnan(full_b)):
+                            continue
+                        ok = np.isfinite(a) & np.isfinite(b)
+                        a, b = a[ok], b[ok]
+                    if not close(a, b, 1e-6):
                         bad.add("subtotal-merge")
                 except Exception:
                     bad.add("subtotal-merge")
